@@ -215,6 +215,12 @@ let rec fold_left f l a0 =
   | [] -> a0
   | b :: t -> fold_left f t (f a0 b)
 
+(** val existsb : ('a1 -> bool) -> 'a1 list -> bool **)
+
+let rec existsb f = function
+| [] -> false
+| a :: l0 -> (||) (f a) (existsb f l0)
+
 (** val forallb : ('a1 -> bool) -> 'a1 list -> bool **)
 
 let rec forallb f = function
@@ -4395,7 +4401,7 @@ let rec find_hash h = function
     node list -> bytes res list -> nat -> cinfo list -> (bytes * nat) list ->
     nat -> nat -> ((cinfo list * (bytes * nat) list) * nat) res **)
 
-let rec import_cell dag hashes fuel st m cell depth =
+let rec import_cell dag hashes fuel st m cell0 depth =
   match fuel with
   | O -> Err eFuel
   | S f ->
@@ -4447,9 +4453,9 @@ let rec import_cell dag hashes fuel st m cell depth =
          O))))))))))))))))))))))))))))))))))))))))))))))))))))))))))))))))))))))))))))))))))))))))))))))))))))))))))))))))))))))))))))))))))))))))))))))))))))))))))))))))))))))))))))))))))))))))))))))))))))))))))))))))))))))))))))))))))))))))))))))))))))))))))))))))))))))))))))))))))))))))))))))))))))))))))))))))))))))))))))))))))))))))))))))))))))))))))))))))))))))))))))))))))))))))))))))))))))))))))))))))))))))))))))))))))))))))))))))))))))))))))))))))))))))))))))))))))))))))))))))))))))))))))))))))))))))))))))))))))))))))))))))))))))))))))))))))))))))))))))))))))))))))))))))))))))))))))))))))))))))))))))))))))))))))))))))))))))))))))))))))))))))))))))))))))))))))))))))))))))))))))))))))))))))))))))))))))))))))))))))))))))))))))))))))))))))))))))))))))))))))))))))))))))))))))))))))))))))))))))))))))))))))))))))))))))))))))))))))))))))))))))))))))))))))))))))))))))))))))))))))))))))))))))))))))))))))))))))))))))))))))))))))))))))))))))))))))))))))))))))))))))))))))))))))))))))))))))))))))))))))))))))))))))))))))))))))
          depth
     then Err eDepth
-    else (match nth_error hashes cell with
+    else (match nth_error hashes cell0 with
           | Some rh ->
-            (match nth_error dag cell with
+            (match nth_error dag cell0 with
              | Some nd ->
                bind rh (fun h ->
                  match find_hash h m with
@@ -4514,7 +4520,7 @@ let rec import_cell dag hashes fuel st m cell depth =
                      in
                      let pos = length st' in
                      Ok
-                     (((app st' ({ ci_node = cell; ci_cache = false; ci_wt =
+                     (((app st' ({ ci_node = cell0; ci_cache = false; ci_wt =
                          wt; ci_refs = refs; ci_hashcount = (S
                          (mask_popcount nd.n_mask)); ci_new = (Zneg XH);
                          ci_root = false } :: [])), ((h, pos) :: m')), pos)))
@@ -5109,6 +5115,644 @@ let run_ser = function
     false)), (String ((Ascii (false, true, false, false, true, true, true,
     false)), EmptyString))))))
 
+type cell =
+| Cell of bool * n * n * bits * cell list
+
+(** val stored_hash : n -> bits -> nat -> bytes **)
+
+let stored_hash _ data k0 =
+  firstn (S (S (S (S (S (S (S (S (S (S (S (S (S (S (S (S (S (S (S (S (S (S (S
+    (S (S (S (S (S (S (S (S (S O))))))))))))))))))))))))))))))))
+    (skipn
+      (add (S (S O))
+        (mul (S (S (S (S (S (S (S (S (S (S (S (S (S (S (S (S (S (S (S (S (S
+          (S (S (S (S (S (S (S (S (S (S (S O))))))))))))))))))))))))))))))))
+          k0)) (buf_bytes data))
+
+(** val stored_depth : n -> bits -> nat -> n res **)
+
+let stored_depth m data k0 =
+  match skipn
+          (add
+            (add (S (S O))
+              (mul (S (S (S (S (S (S (S (S (S (S (S (S (S (S (S (S (S (S (S
+                (S (S (S (S (S (S (S (S (S (S (S (S (S
+                O)))))))))))))))))))))))))))))))) (mask_popcount m)))
+            (mul (S (S O)) k0)) (buf_bytes data) with
+  | [] -> Panic pIndex
+  | a :: l ->
+    (match l with
+     | [] -> Panic pIndex
+     | b :: _ ->
+       Ok
+         (N.add (N.mul a (Npos (XO (XO (XO (XO (XO (XO (XO (XO XH)))))))))) b))
+
+(** val level_repr :
+    (bytes -> bytes) -> bool -> n -> bits -> nat -> nat -> bytes option ->
+    (bytes * n) list -> (bytes * n) res **)
+
+let level_repr h special m data nrefs j prev kids =
+  let d1 = d1_byte nrefs special (mask_apply m j) in
+  let head =
+    match prev with
+    | Some h1 -> d1 :: ((d2_byte (length data)) :: h1)
+    | None -> d1 :: ((d2_byte (length data)) :: (data_with_tag data))
+  in
+  let maxd = fold_left N.max (map snd kids) N0 in
+  if (&&) (negb (Nat.eqb nrefs O))
+       (N.leb (Npos (XO (XO (XO (XO (XO (XO (XO (XO (XO (XO XH)))))))))))
+         maxd)
+  then Err eDepth
+  else let depth = if Nat.eqb nrefs O then N0 else N.add maxd (Npos XH) in
+       Ok
+       ((h
+          (app head
+            (app (flat_map be16 (map snd kids)) (concat (map fst kids))))),
+       depth)
+
+(** val own_levels :
+    (bytes -> bytes) -> bool -> n -> bits -> nat -> (nat -> (bytes * n) list
+    res) -> nat -> (bytes * n) res **)
+
+let rec own_levels h special m data nrefs kids = function
+| O -> bind (kids O) (fun ks -> level_repr h special m data nrefs O None ks)
+| S i' ->
+  if N.testbit m (N.of_nat i')
+  then bind (own_levels h special m data nrefs kids i') (fun prev ->
+         bind (kids (S i')) (fun ks ->
+           level_repr h special m data nrefs (S i') (Some (fst prev)) ks))
+  else own_levels h special m data nrefs kids i'
+
+(** val hd_at : (bytes -> bytes) -> cell -> nat -> (bytes * n) res **)
+
+let rec hd_at h c i =
+  let Cell (special, ty, m, data, refs) = c in
+  let merkle = is_merkle special ty in
+  let kids = fun j ->
+    let rec go = function
+    | [] -> Ok []
+    | ch0 :: t ->
+      (match hd_at h ch0 (if merkle then S j else j) with
+       | Ok x ->
+         (match go t with
+          | Ok xs -> Ok (x :: xs)
+          | Err e -> Err e
+          | Panic p -> Panic p)
+       | Err e -> Err e
+       | Panic p -> Panic p)
+    in go refs
+  in
+  if is_pruned special ty
+  then if Nat.ltb i (mask_level m)
+       then let k0 = mask_popcount (mask_apply m i) in
+            bind (stored_depth m data k0) (fun d -> Ok
+              ((stored_hash m data k0), d))
+       else bind (kids (mask_level m)) (fun ks ->
+              level_repr h special m data (length refs) (mask_level m) None ks)
+  else own_levels h special m data (length refs) kids i
+
+(** val eMerkle : n **)
+
+let eMerkle =
+  Npos (XO (XO (XO (XI (XO XH)))))
+
+(** val bytes_to_bits : bytes -> bits **)
+
+let rec bytes_to_bits = function
+| [] -> []
+| b :: t ->
+  app (bits_of (S (S (S (S (S (S (S (S O)))))))) b) (bytes_to_bits t)
+
+(** val pruned_cell : bytes -> n -> cell **)
+
+let pruned_cell h d =
+  Cell (true, t_PRUNED, (Npos XH),
+    (app (bits_of (S (S (S (S (S (S (S (S O)))))))) (Npos XH))
+      (app (bits_of (S (S (S (S (S (S (S (S O)))))))) (Npos XH))
+        (app (bytes_to_bits h)
+          (bits_of (S (S (S (S (S (S (S (S (S (S (S (S (S (S (S (S
+            O)))))))))))))))) d)))), [])
+
+(** val cell_mask : cell -> n **)
+
+let cell_mask = function
+| Cell (_, _, m, _, _) -> m
+
+(** val prune :
+    (bytes -> bytes) -> (nat list -> bool) -> nat list -> cell -> cell res **)
+
+let rec prune h pruned path c = match c with
+| Cell (special, ty, m, data, refs) ->
+  if is_merkle special ty
+  then Err eMerkle
+  else if pruned path
+       then bind (hd_at h c O) (fun hd -> Ok (pruned_cell (fst hd) (snd hd)))
+       else let go =
+              let rec go i = function
+              | [] -> Ok []
+              | ch0 :: t ->
+                bind (prune h pruned (app path (i :: [])) ch0) (fun x ->
+                  bind (go (S i) t) (fun xs -> Ok (x :: xs)))
+              in go
+            in
+            bind (go O refs) (fun refs' ->
+              let m' =
+                fold_left (fun acc ch0 -> N.coq_lor acc (cell_mask ch0))
+                  refs' m
+              in
+              Ok (Cell (special, ty, m', data, refs')))
+
+(** val create_proof :
+    (bytes -> bytes) -> (nat list -> bool) -> cell -> cell res **)
+
+let create_proof h pruned root =
+  bind (prune h pruned [] root) (fun body ->
+    bind (hd_at h root O) (fun hd -> Ok (Cell (true, t_MPROOF, N0,
+      (app (bits_of (S (S (S (S (S (S (S (S O)))))))) (Npos (XI XH)))
+        (app (bytes_to_bits (fst hd))
+          (bits_of (S (S (S (S (S (S (S (S (S (S (S (S (S (S (S (S
+            O)))))))))))))))) (snd hd)))), (body :: [])))))
+
+(** val read_n : nat -> bits -> (n * bits) option **)
+
+let read_n k0 l =
+  if short k0 l then None else Some ((n_of_bits (firstn k0 l)), (skipn k0 l))
+
+(** val read_unary0 : nat -> bits -> nat -> (nat * bits) option **)
+
+let rec read_unary0 fuel l acc =
+  match fuel with
+  | O -> None
+  | S f ->
+    (match l with
+     | [] -> None
+     | b :: t -> if b then read_unary0 f t (S acc) else Some (acc, t))
+
+(** val load_label : nat -> bits -> (bits * bits) option **)
+
+let load_label m l =
+  let w = N.to_nat (N.size (N.of_nat m)) in
+  (match l with
+   | [] -> None
+   | b0 :: t ->
+     if b0
+     then (match t with
+           | [] -> None
+           | b1 :: t0 ->
+             if b1
+             then (match t0 with
+                   | [] -> None
+                   | b :: t1 ->
+                     (match read_n w t1 with
+                      | Some p ->
+                        let (n0, t') = p in
+                        Some ((repeat b (N.to_nat n0)), t')
+                      | None -> None))
+             else (match read_n w t0 with
+                   | Some p ->
+                     let (n0, t') = p in
+                     let n1 = N.to_nat n0 in
+                     if short n1 t'
+                     then None
+                     else Some ((firstn n1 t'), (skipn n1 t'))
+                   | None -> None))
+     else (match read_unary0 (S (length t)) t O with
+           | Some p ->
+             let (n0, t') = p in
+             if short n0 t'
+             then None
+             else Some ((firstn n0 t'), (skipn n0 t'))
+           | None -> None))
+
+(** val cell_bits : cell -> bits **)
+
+let cell_bits = function
+| Cell (_, _, _, d, _) -> d
+
+(** val cell_refs : cell -> cell list **)
+
+let cell_refs = function
+| Cell (_, _, _, _, r) -> r
+
+(** val prove_walk :
+    nat -> cell -> bits -> nat -> nat -> bits -> nat list -> nat list list ->
+    (((nat list list * nat list) * bits) * bits) res **)
+
+let rec prove_walk fuel c key remaining keysize prefix path pruned =
+  match fuel with
+  | O -> Err eFuel
+  | S f ->
+    (match load_label remaining (cell_bits c) with
+     | Some p ->
+       let (lab, rest) = p in
+       let size0 = length lab in
+       let prefix' = app prefix lab in
+       if Nat.ltb keysize (length prefix')
+       then Err eMerkle
+       else if Nat.leb remaining size0
+            then Ok (((pruned, path), rest), prefix')
+            else if short (S size0) key
+                 then Err eMerkle
+                 else let isRight = nth size0 key false in
+                      if Nat.ltb keysize (S (length prefix'))
+                      then Err eMerkle
+                      else (match cell_refs c with
+                            | [] -> Err eMerkle
+                            | l :: l0 ->
+                              (match l0 with
+                               | [] ->
+                                 if isRight then Err eMerkle else Panic pIndex
+                               | r :: _ ->
+                                 if isRight
+                                 then prove_walk f r (skipn (S size0) key)
+                                        (sub (sub remaining size0) (S O))
+                                        keysize (app prefix' (true :: []))
+                                        (app path ((S O) :: []))
+                                        (app pruned
+                                          ((app path (O :: [])) :: []))
+                                 else prove_walk f l (skipn (S size0) key)
+                                        (sub (sub remaining size0) (S O))
+                                        keysize (app prefix' (false :: []))
+                                        (app path (O :: []))
+                                        (app pruned
+                                          ((app path ((S O) :: [])) :: []))))
+     | None -> Err eMerkle)
+
+(** val path_eqb : nat list -> nat list -> bool **)
+
+let path_eqb a b =
+  (&&) (Nat.eqb (length a) (length b))
+    (forallb (fun p -> Nat.eqb (fst p) (snd p)) (combine a b))
+
+(** val in_paths : nat list list -> nat list -> bool **)
+
+let in_paths ps p =
+  existsb (path_eqb p) ps
+
+(** val bits_eqb : bits -> bits -> bool **)
+
+let bits_eqb a b =
+  (&&) (Nat.eqb (length a) (length b))
+    (forallb (fun p -> eqb (fst p) (snd p)) (combine a b))
+
+(** val prove_key : (bytes -> bytes) -> cell -> bits -> nat -> cell res **)
+
+let prove_key h root key vbits =
+  bind
+    (prove_walk (S (length key)) root key (length key) (length key) [] [] [])
+    (fun w ->
+    let (p, prefix) = w in
+    let (p0, rest) = p in
+    let (pruned, _) = p0 in
+    if short vbits rest
+    then Err eMerkle
+    else if short (length key) prefix
+         then Err eMerkle
+         else if negb (bits_eqb (firstn (length key) prefix) key)
+              then Err eMerkle
+              else create_proof h (in_paths pruned) root)
+
+(** val tree_at : nat -> node list -> nat -> cell option **)
+
+let rec tree_at fuel cells i =
+  match fuel with
+  | O -> None
+  | S f ->
+    (match nth_error cells i with
+     | Some nd ->
+       let go =
+         let rec go = function
+         | [] -> Some []
+         | r :: t ->
+           (match tree_at f cells r with
+            | Some x ->
+              (match go t with
+               | Some xs -> Some (x :: xs)
+               | None -> None)
+            | None -> None)
+         in go
+       in
+       (match go nd.n_refs with
+        | Some ts ->
+          Some (Cell (nd.n_special, nd.n_type, nd.n_mask, nd.n_bits, ts))
+        | None -> None)
+     | None -> None)
+
+(** val index_of : node list -> nat -> nat list -> nat option **)
+
+let rec index_of cells i = function
+| [] -> Some i
+| k0 :: t ->
+  (match nth_error cells i with
+   | Some nd ->
+     (match nth_error nd.n_refs k0 with
+      | Some r -> index_of cells r t
+      | None -> None)
+   | None -> None)
+
+(** val flatten : cell -> nat -> node list **)
+
+let rec flatten c base =
+  let Cell (special, ty, m, data, refs) = c in
+  let go =
+    let rec go rs cur =
+      match rs with
+      | [] -> ([], [])
+      | ch0 :: t ->
+        let blk = flatten ch0 cur in
+        let (idxs, rest) = go t (add cur (length blk)) in
+        ((cur :: idxs), (app blk rest))
+    in go
+  in
+  let (idxs, blocks0) = go refs (S base) in
+  { n_special = special; n_type = ty; n_mask = m; n_bits = data; n_refs =
+  idxs } :: blocks0
+
+(** val ser_tree : cell -> sx **)
+
+let ser_tree c =
+  let cells = flatten c O in
+  (match serialize cells (hashes_of cells) (O :: []) false false false with
+   | Ok out -> SBytes out
+   | Err _ ->
+     SA (String ((Ascii (true, false, true, false, false, true, true,
+       false)), (String ((Ascii (false, true, false, false, true, true, true,
+       false)), (String ((Ascii (false, true, false, false, true, true, true,
+       false)), EmptyString))))))
+   | Panic _ ->
+     SA (String ((Ascii (false, false, false, false, true, true, true,
+       false)), (String ((Ascii (true, false, false, false, false, true,
+       true, false)), (String ((Ascii (false, true, true, true, false, true,
+       true, false)), (String ((Ascii (true, false, false, true, false, true,
+       true, false)), (String ((Ascii (true, true, false, false, false, true,
+       true, false)), EmptyString)))))))))))
+
+(** val path_of_sx : sx -> nat list **)
+
+let path_of_sx = function
+| SL l -> map (fun x -> match x with
+                        | SN n0 -> N.to_nat n0
+                        | _ -> O) l
+| _ -> []
+
+(** val run_proof : sx -> sx **)
+
+let run_proof = function
+| SL l ->
+  (match l with
+   | [] ->
+     sx_err (String ((Ascii (false, false, false, false, true, true, true,
+       false)), (String ((Ascii (false, true, false, false, true, true, true,
+       false)), (String ((Ascii (true, true, true, true, false, true, true,
+       false)), (String ((Ascii (true, true, true, true, false, true, true,
+       false)), (String ((Ascii (false, true, true, false, false, true, true,
+       false)), EmptyString))))))))))
+   | s :: l0 ->
+     (match s with
+      | SL dag ->
+        (match l0 with
+         | [] ->
+           sx_err (String ((Ascii (false, false, false, false, true, true,
+             true, false)), (String ((Ascii (false, true, false, false, true,
+             true, true, false)), (String ((Ascii (true, true, true, true,
+             false, true, true, false)), (String ((Ascii (true, true, true,
+             true, false, true, true, false)), (String ((Ascii (false, true,
+             true, false, false, true, true, false)), EmptyString))))))))))
+         | s0 :: l1 ->
+           (match s0 with
+            | SN root ->
+              (match l1 with
+               | [] ->
+                 sx_err (String ((Ascii (false, false, false, false, true,
+                   true, true, false)), (String ((Ascii (false, true, false,
+                   false, true, true, true, false)), (String ((Ascii (true,
+                   true, true, true, false, true, true, false)), (String
+                   ((Ascii (true, true, true, true, false, true, true,
+                   false)), (String ((Ascii (false, true, true, false, false,
+                   true, true, false)), EmptyString))))))))))
+               | s1 :: l2 ->
+                 (match s1 with
+                  | SL paths ->
+                    (match l2 with
+                     | [] ->
+                       (match nodes_of_sx dag with
+                        | Some cells ->
+                          let root0 = N.to_nat root in
+                          (match tree_at (S (length cells)) cells root0 with
+                           | Some t ->
+                             let pidx =
+                               flat_map (fun p ->
+                                 match index_of cells root0 (path_of_sx p) with
+                                 | Some i -> i :: []
+                                 | None -> []) paths
+                             in
+                             let pruned = fun p ->
+                               match index_of cells root0 p with
+                               | Some i -> existsb (Nat.eqb i) pidx
+                               | None -> false
+                             in
+                             (match create_proof sha256 pruned t with
+                              | Ok p -> ser_tree p
+                              | Err _ ->
+                                SA (String ((Ascii (true, false, true, false,
+                                  false, true, true, false)), (String ((Ascii
+                                  (false, true, false, false, true, true,
+                                  true, false)), (String ((Ascii (false,
+                                  true, false, false, true, true, true,
+                                  false)), EmptyString))))))
+                              | Panic _ ->
+                                SA (String ((Ascii (false, false, false,
+                                  false, true, true, true, false)), (String
+                                  ((Ascii (true, false, false, false, false,
+                                  true, true, false)), (String ((Ascii
+                                  (false, true, true, true, false, true,
+                                  true, false)), (String ((Ascii (true,
+                                  false, false, true, false, true, true,
+                                  false)), (String ((Ascii (true, true,
+                                  false, false, false, true, true, false)),
+                                  EmptyString)))))))))))
+                           | None ->
+                             sx_err (String ((Ascii (false, false, true,
+                               false, true, true, true, false)), (String
+                               ((Ascii (false, true, false, false, true,
+                               true, true, false)), (String ((Ascii (true,
+                               false, true, false, false, true, true,
+                               false)), (String ((Ascii (true, false, true,
+                               false, false, true, true, false)),
+                               EmptyString)))))))))
+                        | None ->
+                          sx_err (String ((Ascii (false, false, true, false,
+                            false, true, true, false)), (String ((Ascii
+                            (true, false, false, false, false, true, true,
+                            false)), (String ((Ascii (true, true, true,
+                            false, false, true, true, false)),
+                            EmptyString)))))))
+                     | _ :: _ ->
+                       sx_err (String ((Ascii (false, false, false, false,
+                         true, true, true, false)), (String ((Ascii (false,
+                         true, false, false, true, true, true, false)),
+                         (String ((Ascii (true, true, true, true, false,
+                         true, true, false)), (String ((Ascii (true, true,
+                         true, true, false, true, true, false)), (String
+                         ((Ascii (false, true, true, false, false, true,
+                         true, false)), EmptyString)))))))))))
+                  | _ ->
+                    sx_err (String ((Ascii (false, false, false, false, true,
+                      true, true, false)), (String ((Ascii (false, true,
+                      false, false, true, true, true, false)), (String
+                      ((Ascii (true, true, true, true, false, true, true,
+                      false)), (String ((Ascii (true, true, true, true,
+                      false, true, true, false)), (String ((Ascii (false,
+                      true, true, false, false, true, true, false)),
+                      EmptyString))))))))))))
+            | _ ->
+              sx_err (String ((Ascii (false, false, false, false, true, true,
+                true, false)), (String ((Ascii (false, true, false, false,
+                true, true, true, false)), (String ((Ascii (true, true, true,
+                true, false, true, true, false)), (String ((Ascii (true,
+                true, true, true, false, true, true, false)), (String ((Ascii
+                (false, true, true, false, false, true, true, false)),
+                EmptyString))))))))))))
+      | _ ->
+        sx_err (String ((Ascii (false, false, false, false, true, true, true,
+          false)), (String ((Ascii (false, true, false, false, true, true,
+          true, false)), (String ((Ascii (true, true, true, true, false,
+          true, true, false)), (String ((Ascii (true, true, true, true,
+          false, true, true, false)), (String ((Ascii (false, true, true,
+          false, false, true, true, false)), EmptyString))))))))))))
+| _ ->
+  sx_err (String ((Ascii (false, false, false, false, true, true, true,
+    false)), (String ((Ascii (false, true, false, false, true, true, true,
+    false)), (String ((Ascii (true, true, true, true, false, true, true,
+    false)), (String ((Ascii (true, true, true, true, false, true, true,
+    false)), (String ((Ascii (false, true, true, false, false, true, true,
+    false)), EmptyString))))))))))
+
+(** val run_key : sx -> sx **)
+
+let run_key = function
+| SL l ->
+  (match l with
+   | [] ->
+     sx_err (String ((Ascii (true, true, false, true, false, true, true,
+       false)), (String ((Ascii (true, false, true, false, false, true, true,
+       false)), (String ((Ascii (true, false, false, true, true, true, true,
+       false)), EmptyString))))))
+   | s :: l0 ->
+     (match s with
+      | SL dag ->
+        (match l0 with
+         | [] ->
+           sx_err (String ((Ascii (true, true, false, true, false, true,
+             true, false)), (String ((Ascii (true, false, true, false, false,
+             true, true, false)), (String ((Ascii (true, false, false, true,
+             true, true, true, false)), EmptyString))))))
+         | s0 :: l1 ->
+           (match s0 with
+            | SN root ->
+              (match l1 with
+               | [] ->
+                 sx_err (String ((Ascii (true, true, false, true, false,
+                   true, true, false)), (String ((Ascii (true, false, true,
+                   false, false, true, true, false)), (String ((Ascii (true,
+                   false, false, true, true, true, true, false)),
+                   EmptyString))))))
+               | s1 :: l2 ->
+                 (match s1 with
+                  | SBits key ->
+                    (match l2 with
+                     | [] ->
+                       sx_err (String ((Ascii (true, true, false, true,
+                         false, true, true, false)), (String ((Ascii (true,
+                         false, true, false, false, true, true, false)),
+                         (String ((Ascii (true, false, false, true, true,
+                         true, true, false)), EmptyString))))))
+                     | s2 :: l3 ->
+                       (match s2 with
+                        | SN vbits ->
+                          (match l3 with
+                           | [] ->
+                             (match nodes_of_sx dag with
+                              | Some cells ->
+                                (match tree_at (S (length cells)) cells
+                                         (N.to_nat root) with
+                                 | Some t ->
+                                   (match prove_key sha256 t key
+                                            (N.to_nat vbits) with
+                                    | Ok p -> ser_tree p
+                                    | Err _ ->
+                                      SA (String ((Ascii (true, false, true,
+                                        false, false, true, true, false)),
+                                        (String ((Ascii (false, true, false,
+                                        false, true, true, true, false)),
+                                        (String ((Ascii (false, true, false,
+                                        false, true, true, true, false)),
+                                        EmptyString))))))
+                                    | Panic _ ->
+                                      SA (String ((Ascii (false, false,
+                                        false, false, true, true, true,
+                                        false)), (String ((Ascii (true,
+                                        false, false, false, false, true,
+                                        true, false)), (String ((Ascii
+                                        (false, true, true, true, false,
+                                        true, true, false)), (String ((Ascii
+                                        (true, false, false, true, false,
+                                        true, true, false)), (String ((Ascii
+                                        (true, true, false, false, false,
+                                        true, true, false)),
+                                        EmptyString)))))))))))
+                                 | None ->
+                                   sx_err (String ((Ascii (false, false,
+                                     true, false, true, true, true, false)),
+                                     (String ((Ascii (false, true, false,
+                                     false, true, true, true, false)),
+                                     (String ((Ascii (true, false, true,
+                                     false, false, true, true, false)),
+                                     (String ((Ascii (true, false, true,
+                                     false, false, true, true, false)),
+                                     EmptyString)))))))))
+                              | None ->
+                                sx_err (String ((Ascii (false, false, true,
+                                  false, false, true, true, false)), (String
+                                  ((Ascii (true, false, false, false, false,
+                                  true, true, false)), (String ((Ascii (true,
+                                  true, true, false, false, true, true,
+                                  false)), EmptyString)))))))
+                           | _ :: _ ->
+                             sx_err (String ((Ascii (true, true, false, true,
+                               false, true, true, false)), (String ((Ascii
+                               (true, false, true, false, false, true, true,
+                               false)), (String ((Ascii (true, false, false,
+                               true, true, true, true, false)),
+                               EmptyString)))))))
+                        | _ ->
+                          sx_err (String ((Ascii (true, true, false, true,
+                            false, true, true, false)), (String ((Ascii
+                            (true, false, true, false, false, true, true,
+                            false)), (String ((Ascii (true, false, false,
+                            true, true, true, true, false)), EmptyString))))))))
+                  | _ ->
+                    sx_err (String ((Ascii (true, true, false, true, false,
+                      true, true, false)), (String ((Ascii (true, false,
+                      true, false, false, true, true, false)), (String
+                      ((Ascii (true, false, false, true, true, true, true,
+                      false)), EmptyString))))))))
+            | _ ->
+              sx_err (String ((Ascii (true, true, false, true, false, true,
+                true, false)), (String ((Ascii (true, false, true, false,
+                false, true, true, false)), (String ((Ascii (true, false,
+                false, true, true, true, true, false)), EmptyString))))))))
+      | _ ->
+        sx_err (String ((Ascii (true, true, false, true, false, true, true,
+          false)), (String ((Ascii (true, false, true, false, false, true,
+          true, false)), (String ((Ascii (true, false, false, true, true,
+          true, true, false)), EmptyString))))))))
+| _ ->
+  sx_err (String ((Ascii (true, true, false, true, false, true, true,
+    false)), (String ((Ascii (true, false, true, false, false, true, true,
+    false)), (String ((Ascii (true, false, false, true, true, true, true,
+    false)), EmptyString))))))
+
 (** val run : string -> sx -> sx **)
 
 let run name a =
@@ -5218,39 +5862,92 @@ let run name a =
                                      false, true, true, true, false)),
                                      EmptyString))))))))))))))
                                 then run_ser a
-                                else sx_err (String ((Ascii (true, false,
-                                       true, false, true, true, true,
-                                       false)), (String ((Ascii (false, true,
-                                       true, true, false, true, true,
-                                       false)), (String ((Ascii (true, true,
-                                       false, true, false, true, true,
-                                       false)), (String ((Ascii (false, true,
-                                       true, true, false, true, true,
-                                       false)), (String ((Ascii (true, true,
-                                       true, true, false, true, true,
-                                       false)), (String ((Ascii (true, true,
-                                       true, false, true, true, true,
-                                       false)), (String ((Ascii (false, true,
-                                       true, true, false, true, true,
-                                       false)), (String ((Ascii (false,
-                                       false, false, false, false, true,
-                                       false, false)), (String ((Ascii (true,
-                                       true, false, false, false, true, true,
-                                       false)), (String ((Ascii (true, false,
-                                       false, false, false, true, true,
-                                       false)), (String ((Ascii (true, true,
-                                       false, false, true, true, true,
-                                       false)), (String ((Ascii (true, false,
-                                       true, false, false, true, true,
-                                       false)), (String ((Ascii (false,
-                                       false, false, false, false, true,
-                                       false, false)), (String ((Ascii (true,
-                                       true, false, true, false, true, true,
-                                       false)), (String ((Ascii (true, false,
-                                       false, true, false, true, true,
-                                       false)), (String ((Ascii (false, true,
-                                       true, true, false, true, true,
-                                       false)), (String ((Ascii (false,
-                                       false, true, false, false, true, true,
-                                       false)),
-                                       EmptyString))))))))))))))))))))))))))))))))))
+                                else if is (String ((Ascii (true, true,
+                                          false, false, false, true, true,
+                                          false)), (String ((Ascii (true,
+                                          false, false, false, true, true,
+                                          false, false)), (String ((Ascii
+                                          (false, false, false, true, true,
+                                          true, false, false)), (String
+                                          ((Ascii (false, true, true, true,
+                                          false, true, false, false)),
+                                          (String ((Ascii (false, false,
+                                          false, false, true, true, true,
+                                          false)), (String ((Ascii (false,
+                                          true, false, false, true, true,
+                                          true, false)), (String ((Ascii
+                                          (true, true, true, true, false,
+                                          true, true, false)), (String
+                                          ((Ascii (true, true, true, true,
+                                          false, true, true, false)), (String
+                                          ((Ascii (false, true, true, false,
+                                          false, true, true, false)),
+                                          EmptyString))))))))))))))))))
+                                     then run_proof a
+                                     else if is (String ((Ascii (true, true,
+                                               false, false, false, true,
+                                               true, false)), (String ((Ascii
+                                               (true, false, false, false,
+                                               true, true, false, false)),
+                                               (String ((Ascii (false, false,
+                                               false, true, true, true,
+                                               false, false)), (String
+                                               ((Ascii (false, true, true,
+                                               true, false, true, false,
+                                               false)), (String ((Ascii
+                                               (true, true, false, true,
+                                               false, true, true, false)),
+                                               (String ((Ascii (true, false,
+                                               true, false, false, true,
+                                               true, false)), (String ((Ascii
+                                               (true, false, false, true,
+                                               true, true, true, false)),
+                                               EmptyString))))))))))))))
+                                          then run_key a
+                                          else sx_err (String ((Ascii (true,
+                                                 false, true, false, true,
+                                                 true, true, false)), (String
+                                                 ((Ascii (false, true, true,
+                                                 true, false, true, true,
+                                                 false)), (String ((Ascii
+                                                 (true, true, false, true,
+                                                 false, true, true, false)),
+                                                 (String ((Ascii (false,
+                                                 true, true, true, false,
+                                                 true, true, false)), (String
+                                                 ((Ascii (true, true, true,
+                                                 true, false, true, true,
+                                                 false)), (String ((Ascii
+                                                 (true, true, true, false,
+                                                 true, true, true, false)),
+                                                 (String ((Ascii (false,
+                                                 true, true, true, false,
+                                                 true, true, false)), (String
+                                                 ((Ascii (false, false,
+                                                 false, false, false, true,
+                                                 false, false)), (String
+                                                 ((Ascii (true, true, false,
+                                                 false, false, true, true,
+                                                 false)), (String ((Ascii
+                                                 (true, false, false, false,
+                                                 false, true, true, false)),
+                                                 (String ((Ascii (true, true,
+                                                 false, false, true, true,
+                                                 true, false)), (String
+                                                 ((Ascii (true, false, true,
+                                                 false, false, true, true,
+                                                 false)), (String ((Ascii
+                                                 (false, false, false, false,
+                                                 false, true, false, false)),
+                                                 (String ((Ascii (true, true,
+                                                 false, true, false, true,
+                                                 true, false)), (String
+                                                 ((Ascii (true, false, false,
+                                                 true, false, true, true,
+                                                 false)), (String ((Ascii
+                                                 (false, true, true, true,
+                                                 false, true, true, false)),
+                                                 (String ((Ascii (false,
+                                                 false, true, false, false,
+                                                 true, true, false)),
+                                                 EmptyString))))))))))))))))))))))))))))))))))
